@@ -1222,7 +1222,19 @@ func (f *Frame) contractCallSig(instr ssa.Instruction, key string, sig *types.Si
 	}
 	pre := f.st
 	env := &Env{F: f, State: pre, Old: pre, Vars: vars, Callee: fc}
+	// Representation gap: a contract written in `mode bytes` states its clauses over
+	// (array, offset, length) strings; at a call from a function verified with opaque
+	// strings those clauses cannot be evaluated.  The call is then modelled by the
+	// callee's frame and ghost effects only (the call IS the event); its preconditions
+	// at this site are an assumption listed in the evidence, its postconditions are not used.
+	modeGap := fc.Mode == "bytes" && !e.Mode.Bytes
+	if modeGap {
+		e.Assumes["preconditions of "+key+" at its call in "+funcKey(f.Fn)+" are not checked and its postconditions not used (contract in mode bytes, caller verified with opaque strings; only its frame and ghost events are applied)"] = true
+	}
 	for i, cl := range fc.Requires {
+		if modeGap {
+			break
+		}
 		t := f.evalBool(cl.E, env)
 		desc := fmt.Sprintf("%s.%d", key, i+1)
 		// a precondition belongs to the callee's property
@@ -1252,6 +1264,9 @@ func (f *Frame) contractCallSig(instr ssa.Instruction, key string, sig *types.Si
 	}
 	f.applyEffects(fc, env2, post)
 	for _, cl := range fc.Ensures {
+		if modeGap {
+			break
+		}
 		// a postcondition that names locals of the callee (address-taken variables)
 		// cannot be stated at a call site; it is verified in the callee but not assumed here
 		func() {
